@@ -75,6 +75,22 @@ func extractWhereAnalyticCalls(condition string) (string, []types.WhereAnalyticC
 			out.WriteString(ident)
 			continue
 		}
+		if ch == '\'' || ch == '"' {
+			// a string literal is data: 'lag(x)' inside it is no analytic call
+			j := i + 1
+			for j < len(condition) && condition[j] != ch {
+				if condition[j] == '\\' && j+1 < len(condition) {
+					j++
+				}
+				j++
+			}
+			if j < len(condition) {
+				j++
+			}
+			out.WriteString(condition[i:j])
+			i = j
+			continue
+		}
 		out.WriteByte(ch)
 		i++
 	}
